@@ -391,6 +391,7 @@ package parser
 //@   ensures @range: result.tokens == p.tokens[old(p.pos):cur(p.pos, len(p.tokens))]
 //@   ensures @stop: p.pos < len(p.tokens) ==> p.tokens[p.pos].Kind == TokenSemi
 //@   ensures @nosemi: forall(j, 0, len(result.tokens), result.tokens[j].Kind != TokenSemi)
+//@   ensures @nosemiparent: forall(j, old(p.pos), cur(p.pos, len(p.tokens)), p.tokens[j].Kind != TokenSemi)
 //@   assigns p.pos
 //@ loop 1
 //@   invariant pOK(p.pos, len(p.tokens)) && start <= p.pos && p.pos <= len(p.tokens)
@@ -413,13 +414,14 @@ package parser
 //@   decreases len(stack)
 
 //@ func parser.(*parser).ident
-//@   use perr exprwf
+//@   use perr exprwf exprok yield
 //@   requires p != nil && pOK(p.pos, len(p.tokens)) && toksIn(p.source, p.tokens)
 //@   ensures pOK(p.pos, len(p.tokens))
 //@   ensures @notfound: result1 != nil ==> result0 == nil && nf(result1) && cur(p.pos, len(p.tokens)) == old(cur(p.pos, len(p.tokens)))
 //@   ensures @found: result1 == nil ==> typeis(result0, "Ident") && old(p.pos) < len(p.tokens) && p.pos == old(p.pos) + 1 && (p.tokens[old(p.pos)].Kind == TokenIdentifier || p.tokens[old(p.pos)].Kind == TokenQuotedIdentifier)
 //@   ensures @span: result1 == nil ==> identOK(p.source, result0)
 //@   ensures @fields: result1 == nil ==> result0.Name == p.tokens[old(p.pos)].Value && result0.NameSpan == p.tokens[old(p.pos)].Span && result0.Quoted == (p.tokens[old(p.pos)].Kind == TokenQuotedIdentifier)
+//@   ensures @count: result1 == nil ==> ntok(result0) == 1 && slack(result0) == 0
 //@   assigns p.pos
 
 // ---------------------------------------------------------------- parser.go: expressions
@@ -429,89 +431,105 @@ package parser
 //@   ensures result == opPrec(op)
 
 //@ func parser.(*parser).qualifiedIdent
-//@   use perr exprwf
+//@   use perr exprwf exprok yield
 //@   requires p != nil && pOK(p.pos, len(p.tokens)) && toksIn(p.source, p.tokens)
 //@   ensures pOK(p.pos, len(p.tokens)) && old(cur(p.pos, len(p.tokens))) <= cur(p.pos, len(p.tokens))
 //@   ensures @notfound: nf(result1) ==> cur(p.pos, len(p.tokens)) == old(cur(p.pos, len(p.tokens))) && result0 == nil
 //@   ensures @wf: result1 == nil ==> exprOK(p.source, result0) && typeis(result0, "QualifiedIdent")
 //@   ensures @progress: result1 == nil ==> old(cur(p.pos, len(p.tokens))) < cur(p.pos, len(p.tokens))
+//@   ensures @count: result1 == nil ==> cur(p.pos, len(p.tokens)) - old(cur(p.pos, len(p.tokens))) == ntok(result0) && slack(result0) == 0
 //@   assigns p.pos
 //@ loop 1
+//@   invariant ntokL(qid.Parts, len(qid.Parts)) == len(qid.Parts) && slackL(qid.Parts, len(qid.Parts)) == 0 && cur(p.pos, len(p.tokens)) - old(cur(p.pos, len(p.tokens))) == 2*len(qid.Parts) - 1
 //@   invariant pOK(p.pos, len(p.tokens)) && old(cur(p.pos, len(p.tokens))) < cur(p.pos, len(p.tokens))
 //@   invariant len(qid.Parts) > 0 && identsOK(p.source, qid.Parts, len(qid.Parts))
 //@   decreases len(p.tokens) + 1 - p.pos
 
 //@ func parser.(*parser).innerPrimaryExpr
-//@   use perr exprwf
+//@   use perr exprwf exprok yield
 //@   requires p != nil && pOK(p.pos, len(p.tokens)) && toksIn(p.source, p.tokens)
 //@   ensures pOK(p.pos, len(p.tokens)) && old(cur(p.pos, len(p.tokens))) <= cur(p.pos, len(p.tokens))
 //@   ensures @progress: result1 == nil ==> old(cur(p.pos, len(p.tokens))) < cur(p.pos, len(p.tokens))
 //@   ensures @notfound: nf(result1) ==> cur(p.pos, len(p.tokens)) == old(cur(p.pos, len(p.tokens)))
 //@   ensures @wf: result1 == nil ==> exprOK(p.source, result0)
+//@   ensures @primary: primaryShape(result0)
+//@   ensures @count: result1 == nil ==> within(cur(p.pos, len(p.tokens)) - old(cur(p.pos, len(p.tokens))), ntok(result0), slack(result0))
 //@   assigns p.pos
 //@   decreases remTok(p.pos, len(p.tokens)), 2
 
 //@ func parser.(*parser).primaryExpr
-//@   use perr exprwf
+//@   use perr exprwf exprok yield
 //@   requires p != nil && pOK(p.pos, len(p.tokens)) && toksIn(p.source, p.tokens)
 //@   ensures pOK(p.pos, len(p.tokens)) && old(cur(p.pos, len(p.tokens))) <= cur(p.pos, len(p.tokens))
 //@   ensures @progress: result1 == nil ==> old(cur(p.pos, len(p.tokens))) < cur(p.pos, len(p.tokens))
 //@   ensures @notfound: nf(result1) ==> cur(p.pos, len(p.tokens)) == old(cur(p.pos, len(p.tokens)))
 //@   ensures @wf: result1 == nil ==> exprOK(p.source, result0)
+//@   ensures @primary: primaryShape(result0)
+//@   ensures @count: result1 == nil ==> within(cur(p.pos, len(p.tokens)) - old(cur(p.pos, len(p.tokens))), ntok(result0), slack(result0))
 //@   assigns p.pos
 //@   decreases remTok(p.pos, len(p.tokens)), 3
 
 //@ func parser.(*parser).unaryExpr
-//@   use perr exprwf
+//@   use perr exprwf exprok yield
 //@   requires p != nil && pOK(p.pos, len(p.tokens)) && toksIn(p.source, p.tokens)
 //@   ensures pOK(p.pos, len(p.tokens)) && old(cur(p.pos, len(p.tokens))) <= cur(p.pos, len(p.tokens))
 //@   ensures @progress: result1 == nil ==> old(cur(p.pos, len(p.tokens))) < cur(p.pos, len(p.tokens))
 //@   ensures @notfound: nf(result1) ==> cur(p.pos, len(p.tokens)) == old(cur(p.pos, len(p.tokens)))
 //@   ensures @wf: result1 == nil ==> exprOK(p.source, result0)
+//@   ensures @atomic: leftPrec(result0) == 9 && rightPrec(result0) == 9
+//@   ensures @count: result1 == nil ==> within(cur(p.pos, len(p.tokens)) - old(cur(p.pos, len(p.tokens))), ntok(result0), slack(result0))
 //@   assigns p.pos
 //@   decreases remTok(p.pos, len(p.tokens)), 4
 
 //@ func parser.(*parser).expr
-//@   use perr exprwf
+//@   use perr exprwf exprok yield
 //@   requires p != nil && pOK(p.pos, len(p.tokens)) && toksIn(p.source, p.tokens)
 //@   ensures pOK(p.pos, len(p.tokens)) && old(cur(p.pos, len(p.tokens))) <= cur(p.pos, len(p.tokens))
 //@   ensures @progress: result1 == nil ==> old(cur(p.pos, len(p.tokens))) < cur(p.pos, len(p.tokens))
 //@   ensures @notfound: nf(result1) ==> cur(p.pos, len(p.tokens)) == old(cur(p.pos, len(p.tokens)))
 //@   ensures @wf: result1 == nil ==> exprOK(p.source, result0)
+//@   ensures @count: result1 == nil ==> within(cur(p.pos, len(p.tokens)) - old(cur(p.pos, len(p.tokens))), ntok(result0), slack(result0))
 //@   assigns p.pos
 //@   decreases remTok(p.pos, len(p.tokens)), 6
 
 //@ func parser.(*parser).exprBinaryTrail
-//@   use perr exprwf
-//@   requires p != nil && pOK(p.pos, len(p.tokens)) && toksIn(p.source, p.tokens)
+//@   use perr exprwf exprok yield
+//@   requires p != nil && pOK(p.pos, len(p.tokens)) && toksIn(p.source, p.tokens) && minPrecedence >= 0
 //@   ensures pOK(p.pos, len(p.tokens)) && old(cur(p.pos, len(p.tokens))) <= cur(p.pos, len(p.tokens))
 //@   ensures @notfound: !nf(result1)
-//@   ensures @wf: result1 == nil && exprOK(p.source, x) ==> exprOK(p.source, result0)
+//@   ensures @wf: result1 == nil && exprOK(p.source, x) && old(nextPrec(p.tokens, p.pos)) <= leftPrec(x) ==> exprOK(p.source, result0)
+//@   ensures @prec: result1 == nil && exprOK(p.source, x) && old(nextPrec(p.tokens, p.pos)) <= leftPrec(x) ==> nextPrec(p.tokens, p.pos) < minPrecedence && leftPrec(result0) >= min(leftPrec(x), minPrecedence) && rightPrec(result0) >= min(rightPrec(x), minPrecedence)
 //@   ensures @progress: old(nextPrec(p.tokens, p.pos)) >= 0 && old(nextPrec(p.tokens, p.pos)) >= minPrecedence ==> cur(p.pos, len(p.tokens)) > old(cur(p.pos, len(p.tokens)))
+//@   ensures @count: result1 == nil ==> within(cur(p.pos, len(p.tokens)) - old(cur(p.pos, len(p.tokens))), ntok(result0) - ntok(x), slack(result0) - slack(x))
 //@   assigns p.pos
 //@   decreases remTok(p.pos, len(p.tokens)), 5
 //@ loop 1
+//@   invariant finalError == nil ==> within(cur(p.pos, len(p.tokens)) - old(cur(p.pos, len(p.tokens))), ntok(x) - ntok(old(x)), slack(x) - slack(old(x)))
 //@   invariant pOK(p.pos, len(p.tokens)) && old(cur(p.pos, len(p.tokens))) <= cur(p.pos, len(p.tokens)) && !nf(finalError)
-//@   invariant finalError == nil && exprOK(p.source, old(x)) ==> exprOK(p.source, x)
+//@   invariant finalError == nil && exprOK(p.source, old(x)) && old(nextPrec(p.tokens, p.pos)) <= leftPrec(old(x)) ==> exprOK(p.source, x) && nextPrec(p.tokens, p.pos) <= leftPrec(x) && leftPrec(x) >= min(leftPrec(old(x)), minPrecedence) && rightPrec(x) >= min(rightPrec(old(x)), minPrecedence)
 //@   invariant old(nextPrec(p.tokens, p.pos)) >= 0 && old(nextPrec(p.tokens, p.pos)) >= minPrecedence ==> cur(p.pos, len(p.tokens)) > old(cur(p.pos, len(p.tokens))) || p.pos == old(p.pos)
 //@   decreases len(p.tokens) + 1 - p.pos
 //@ loop 2
+//@   invariant finalError == nil ==> within(cur(p.pos, len(p.tokens)) - old(cur(p.pos, len(p.tokens))), ntok(x) - ntok(old(x)) + 1 + ntok(y), slack(x) - slack(old(x)) + slack(y))
 //@   invariant pOK(p.pos, len(p.tokens)) && old(cur(p.pos, len(p.tokens))) < cur(p.pos, len(p.tokens)) && !nf(finalError)
-//@   invariant finalError == nil && exprOK(p.source, old(x)) ==> exprOK(p.source, x) && exprOK(p.source, y)
+//@   invariant finalError == nil && exprOK(p.source, old(x)) && old(nextPrec(p.tokens, p.pos)) <= leftPrec(old(x)) ==> exprOK(p.source, x) && exprOK(p.source, y) && leftPrec(x) >= precedence1 && rightPrec(y) > precedence1 && leftPrec(y) > precedence1 && nextPrec(p.tokens, p.pos) <= leftPrec(y)
+//@   invariant precedence1 == opPrec(op1.Kind) && precedence1 >= minPrecedence && op1.Kind != TokenIn && tokIn(p.source, op1)
 //@   invariant len(p.tokens) + 1 - p.pos < variant(1)
 //@   decreases remTok(p.pos, len(p.tokens))
 
 //@ func parser.(*parser).exprList
-//@   use perr exprwf
+//@   use perr exprwf exprok yield
 //@   requires p != nil && pOK(p.pos, len(p.tokens)) && toksIn(p.source, p.tokens)
 //@   ensures pOK(p.pos, len(p.tokens)) && old(cur(p.pos, len(p.tokens))) <= cur(p.pos, len(p.tokens))
 //@   ensures @notfound: nf(result1) ==> cur(p.pos, len(p.tokens)) == old(cur(p.pos, len(p.tokens))) && len(result0) == 0
 //@   ensures @wf: result1 == nil ==> len(result0) >= 1 && exprsOK(p.source, result0, len(result0))
 //@   ensures @progress: result1 == nil ==> old(cur(p.pos, len(p.tokens))) < cur(p.pos, len(p.tokens))
 //@   ensures @ok.restore: nf(err) ==> p.pos == restorePos
+//@   ensures @count: result1 == nil ==> within(cur(p.pos, len(p.tokens)) - old(cur(p.pos, len(p.tokens))), ntokL(result0, len(result0)) + len(result0) - 1, slackL(result0, len(result0)))
 //@   assigns p.pos
 //@   decreases remTok(p.pos, len(p.tokens)), 7
 //@ loop 1
+//@   invariant within(cur(p.pos, len(p.tokens)) - old(cur(p.pos, len(p.tokens))), ntokL(result, len(result)) + len(result) - 1, slackL(result, len(result)))
 //@   invariant pOK(p.pos, len(p.tokens)) && old(cur(p.pos, len(p.tokens))) < cur(p.pos, len(p.tokens))
 //@   invariant len(result) >= 1 && exprsOK(p.source, result, len(result))
 //@   decreases len(p.tokens) + 1 - p.pos
@@ -527,17 +545,18 @@ package parser
 //@   ensures result == (lit.Kind == TokenNumber && !strings.ContainsAny(lit.Value, ".eE"))
 
 //@ func parser.(*parser).rowCount
-//@   use perr exprwf pwf
+//@   use perr exprwf exprok pwf yield
 //@   hide expr
 //@   requires p != nil && pOK(p.pos, len(p.tokens)) && toksIn(p.source, p.tokens)
 //@   ensures pOK(p.pos, len(p.tokens)) && old(cur(p.pos, len(p.tokens))) <= cur(p.pos, len(p.tokens))
 //@   ensures @notfound: nf(result1) ==> cur(p.pos, len(p.tokens)) == old(cur(p.pos, len(p.tokens)))
 //@   ensures @wf: result1 == nil ==> exprOK(p.source, result0)
 //@   ensures @integer: result1 == nil ==> rowCountOK(result0)
+//@   ensures @count: result1 == nil ==> within(cur(p.pos, len(p.tokens)) - old(cur(p.pos, len(p.tokens))), ntok(result0), slack(result0))
 //@   assigns p.pos
 
 //@ func parser.(*parser).sortTerm
-//@   use perr exprwf pwf
+//@   use perr exprwf exprok pwf yield
 //@   hide expr
 //@   requires p != nil && pOK(p.pos, len(p.tokens)) && toksIn(p.source, p.tokens)
 //@   ensures pOK(p.pos, len(p.tokens)) && old(cur(p.pos, len(p.tokens))) <= cur(p.pos, len(p.tokens))
@@ -546,178 +565,201 @@ package parser
 //@   ensures @defaults: result1 == nil && !spanValid(result0.AscDescSpan) && !spanValid(result0.NullsSpan) ==> !result0.Asc && !result0.NullsFirst
 //@   ensures @ascnulls: result1 == nil && spanValid(result0.AscDescSpan) && !spanValid(result0.NullsSpan) ==> result0.NullsFirst == result0.Asc
 //@   ensures @ok.nulls: result1 == nil && spanValid(term.NullsSpan) ==> tok.Value == "nulls" && term.NullsSpan.Start == tok.Span.Start && term.NullsSpan.End == tok2.Span.End && term.NullsFirst == (tok2.Value == "first") && (tok2.Value == "first" || tok2.Value == "last")
+//@   ensures @count: result1 == nil ==> within(cur(p.pos, len(p.tokens)) - old(cur(p.pos, len(p.tokens))), ntok(result0), slack(result0))
 //@   assigns p.pos
 
 //@ func parser.(*parser).countOperator
-//@   use perr exprwf pwf
+//@   use perr exprwf exprok pwf yield
 //@   hide expr
 //@   requires p != nil && pOK(p.pos, len(p.tokens)) && toksIn(p.source, p.tokens) && tokIn(p.source, pipe) && tokIn(p.source, keyword)
 //@   ensures pOK(p.pos, len(p.tokens)) && old(cur(p.pos, len(p.tokens))) <= cur(p.pos, len(p.tokens))
 //@   ensures @notfound: !nf(result1)
-//@   ensures @wf: result1 == nil ==> pipeOpWF(p.source, result0) && spanSafe(result0)
+//@   ensures @wf: result1 == nil ==> pipeOpWF(p.source, result0) && nodeOK(result0)
+//@   ensures @count: result1 == nil ==> within(cur(p.pos, len(p.tokens)) - old(cur(p.pos, len(p.tokens))) + 2, ntok(result0), slack(result0))
 //@   assigns p.pos
 
 //@ func parser.(*parser).whereOperator
-//@   use perr exprwf pwf
+//@   use perr exprwf exprok pwf yield
 //@   hide expr
 //@   requires p != nil && pOK(p.pos, len(p.tokens)) && toksIn(p.source, p.tokens) && tokIn(p.source, pipe) && tokIn(p.source, keyword)
 //@   ensures pOK(p.pos, len(p.tokens)) && old(cur(p.pos, len(p.tokens))) <= cur(p.pos, len(p.tokens))
 //@   ensures @notfound: !nf(result1)
-//@   ensures @wf: result1 == nil ==> pipeOpWF(p.source, result0) && spanSafe(result0)
+//@   ensures @wf: result1 == nil ==> pipeOpWF(p.source, result0) && nodeOK(result0)
+//@   ensures @count: result1 == nil ==> within(cur(p.pos, len(p.tokens)) - old(cur(p.pos, len(p.tokens))) + 2, ntok(result0), slack(result0))
 //@   assigns p.pos
 
 //@ func parser.(*parser).sortOperator
-//@   use perr exprwf pwf
+//@   use perr exprwf exprok pwf yield
 //@   hide expr
 //@   requires p != nil && pOK(p.pos, len(p.tokens)) && toksIn(p.source, p.tokens) && tokIn(p.source, pipe) && tokIn(p.source, keyword)
 //@   ensures pOK(p.pos, len(p.tokens)) && old(cur(p.pos, len(p.tokens))) <= cur(p.pos, len(p.tokens))
 //@   ensures @notfound: !nf(result1)
-//@   ensures @wf: result1 == nil ==> pipeOpWF(p.source, result0) && spanSafe(result0)
+//@   ensures @wf: result1 == nil ==> pipeOpWF(p.source, result0) && nodeOK(result0)
+//@   ensures @count: result1 == nil ==> within(cur(p.pos, len(p.tokens)) - old(cur(p.pos, len(p.tokens))) + 2, ntok(result0), slack(result0))
 //@   assigns p.pos
 //@ loop 1
+//@   invariant within(cur(p.pos, len(p.tokens)) - old(cur(p.pos, len(p.tokens))), 1 + ntokL(op.Terms, len(op.Terms)) + len(op.Terms), slackL(op.Terms, len(op.Terms)))
 //@   invariant pOK(p.pos, len(p.tokens)) && old(cur(p.pos, len(p.tokens))) <= cur(p.pos, len(p.tokens))
-//@   invariant typeis(op, "SortOperator") && termsWF(op.Terms, len(op.Terms)) && spanSafeList(op.Terms, len(op.Terms))
+//@   invariant typeis(op, "SortOperator") && termsWF(op.Terms, len(op.Terms)) && nodeOKList(op.Terms, len(op.Terms))
 //@   decreases len(p.tokens) + 1 - p.pos
 
 //@ func parser.(*parser).takeOperator
-//@   use perr exprwf pwf
+//@   use perr exprwf exprok pwf yield
 //@   hide expr
 //@   requires p != nil && pOK(p.pos, len(p.tokens)) && toksIn(p.source, p.tokens) && tokIn(p.source, pipe) && tokIn(p.source, keyword)
 //@   ensures pOK(p.pos, len(p.tokens)) && old(cur(p.pos, len(p.tokens))) <= cur(p.pos, len(p.tokens))
 //@   ensures @notfound: !nf(result1)
-//@   ensures @wf: result1 == nil ==> pipeOpWF(p.source, result0) && spanSafe(result0)
+//@   ensures @wf: result1 == nil ==> pipeOpWF(p.source, result0) && nodeOK(result0)
+//@   ensures @count: result1 == nil ==> within(cur(p.pos, len(p.tokens)) - old(cur(p.pos, len(p.tokens))) + 2, ntok(result0), slack(result0))
 //@   assigns p.pos
 
 //@ func parser.(*parser).topOperator
-//@   use perr exprwf pwf
+//@   use perr exprwf exprok pwf yield
 //@   hide expr
 //@   requires p != nil && pOK(p.pos, len(p.tokens)) && toksIn(p.source, p.tokens) && tokIn(p.source, pipe) && tokIn(p.source, keyword)
 //@   ensures pOK(p.pos, len(p.tokens)) && old(cur(p.pos, len(p.tokens))) <= cur(p.pos, len(p.tokens))
 //@   ensures @notfound: !nf(result1)
-//@   ensures @wf: result1 == nil ==> pipeOpWF(p.source, result0) && spanSafe(result0)
+//@   ensures @wf: result1 == nil ==> pipeOpWF(p.source, result0) && nodeOK(result0)
+//@   ensures @count: result1 == nil ==> within(cur(p.pos, len(p.tokens)) - old(cur(p.pos, len(p.tokens))) + 2, ntok(result0), slack(result0))
 //@   assigns p.pos
 
 //@ func parser.(*parser).extendOperator
-//@   use perr exprwf pwf
+//@   use perr exprwf exprok pwf yield
 //@   hide expr
 //@   requires p != nil && pOK(p.pos, len(p.tokens)) && toksIn(p.source, p.tokens) && tokIn(p.source, pipe) && tokIn(p.source, keyword)
 //@   ensures pOK(p.pos, len(p.tokens)) && old(cur(p.pos, len(p.tokens))) <= cur(p.pos, len(p.tokens))
 //@   ensures @notfound: !nf(result1)
-//@   ensures @wf: result1 == nil ==> pipeOpWF(p.source, result0) && spanSafe(result0)
+//@   ensures @wf: result1 == nil ==> pipeOpWF(p.source, result0) && nodeOK(result0)
+//@   ensures @count: result1 == nil ==> within(cur(p.pos, len(p.tokens)) - old(cur(p.pos, len(p.tokens))) + 2, ntok(result0), slack(result0))
 //@   assigns p.pos
 //@ loop 1
+//@   invariant within(cur(p.pos, len(p.tokens)) - old(cur(p.pos, len(p.tokens))), ntokL(op.Cols, len(op.Cols)) + len(op.Cols), slackL(op.Cols, len(op.Cols)))
 //@   invariant pOK(p.pos, len(p.tokens)) && old(cur(p.pos, len(p.tokens))) <= cur(p.pos, len(p.tokens))
-//@   invariant extColsWF(p.source, op.Cols, len(op.Cols)) && spanSafeList(op.Cols, len(op.Cols))
+//@   invariant extColsWF(p.source, op.Cols, len(op.Cols)) && nodeOKList(op.Cols, len(op.Cols))
 //@   decreases len(p.tokens) + 1 - p.pos
 
 //@ func parser.(*parser).extendColumn
-//@   use perr exprwf pwf
+//@   use perr exprwf exprok pwf yield
 //@   hide expr
 //@   requires p != nil && pOK(p.pos, len(p.tokens)) && toksIn(p.source, p.tokens)
 //@   ensures pOK(p.pos, len(p.tokens)) && old(cur(p.pos, len(p.tokens))) <= cur(p.pos, len(p.tokens))
 //@   ensures @notfound: nf(result1) ==> cur(p.pos, len(p.tokens)) == old(cur(p.pos, len(p.tokens)))
-//@   ensures @wf: result1 == nil ==> typeis(result0, "ExtendColumn") && exprOK(p.source, result0.X) && (typeis(result0.Name, "Ident") || result0.Name == nil) && spanSafe(result0) && old(cur(p.pos, len(p.tokens))) < cur(p.pos, len(p.tokens))
+//@   ensures @wf: result1 == nil ==> typeis(result0, "ExtendColumn") && exprOK(p.source, result0.X) && (typeis(result0.Name, "Ident") || result0.Name == nil) && nodeOK(result0) && old(cur(p.pos, len(p.tokens))) < cur(p.pos, len(p.tokens))
+//@   ensures @count: result1 == nil ==> within(cur(p.pos, len(p.tokens)) - old(cur(p.pos, len(p.tokens))), ntok(result0), slack(result0))
 //@   assigns p.pos
 
 //@ func parser.(*parser).summarizeColumn
-//@   use perr exprwf pwf
+//@   use perr exprwf exprok pwf yield
 //@   hide expr
 //@   requires p != nil && pOK(p.pos, len(p.tokens)) && toksIn(p.source, p.tokens)
 //@   ensures pOK(p.pos, len(p.tokens)) && old(cur(p.pos, len(p.tokens))) <= cur(p.pos, len(p.tokens))
 //@   ensures @notfound: nf(result1) ==> cur(p.pos, len(p.tokens)) == old(cur(p.pos, len(p.tokens)))
-//@   ensures @wf: result1 == nil ==> typeis(result0, "SummarizeColumn") && exprOK(p.source, result0.X) && (typeis(result0.Name, "Ident") || result0.Name == nil) && spanSafe(result0) && old(cur(p.pos, len(p.tokens))) < cur(p.pos, len(p.tokens))
+//@   ensures @wf: result1 == nil ==> typeis(result0, "SummarizeColumn") && exprOK(p.source, result0.X) && (typeis(result0.Name, "Ident") || result0.Name == nil) && nodeOK(result0) && old(cur(p.pos, len(p.tokens))) < cur(p.pos, len(p.tokens))
+//@   ensures @count: result1 == nil ==> within(cur(p.pos, len(p.tokens)) - old(cur(p.pos, len(p.tokens))), ntok(result0), slack(result0))
 //@   assigns p.pos
 
 //@ func parser.(*parser).summarizeOperator
-//@   use perr exprwf pwf
+//@   use perr exprwf exprok pwf yield
 //@   hide expr
 //@   requires p != nil && pOK(p.pos, len(p.tokens)) && toksIn(p.source, p.tokens) && tokIn(p.source, pipe) && tokIn(p.source, keyword)
 //@   ensures pOK(p.pos, len(p.tokens)) && old(cur(p.pos, len(p.tokens))) <= cur(p.pos, len(p.tokens))
 //@   ensures @notfound: !nf(result1)
-//@   ensures @wf: result1 == nil ==> pipeOpWF(p.source, result0) && spanSafe(result0)
+//@   ensures @wf: result1 == nil ==> pipeOpWF(p.source, result0) && nodeOK(result0)
+//@   ensures @count: result1 == nil ==> within(cur(p.pos, len(p.tokens)) - old(cur(p.pos, len(p.tokens))) + 2, ntok(result0), slack(result0))
 //@   assigns p.pos
 //@ loop 1
+//@   invariant !spanValid(op.By) && within(cur(p.pos, len(p.tokens)) - old(cur(p.pos, len(p.tokens))), ntokL(op.Cols, len(op.Cols)) + len(op.Cols), slackL(op.Cols, len(op.Cols)))
 //@   invariant pOK(p.pos, len(p.tokens)) && old(cur(p.pos, len(p.tokens))) <= cur(p.pos, len(p.tokens))
-//@   invariant sumColsWF(p.source, op.Cols, len(op.Cols)) && spanSafeList(op.Cols, len(op.Cols)) && len(op.GroupBy) == 0
+//@   invariant sumColsWF(p.source, op.Cols, len(op.Cols)) && nodeOKList(op.Cols, len(op.Cols)) && len(op.GroupBy) == 0
 //@   decreases len(p.tokens) + 1 - p.pos
 //@ loop 2
+//@   invariant spanValid(op.By) && within(cur(p.pos, len(p.tokens)) - old(cur(p.pos, len(p.tokens))), ntokL(op.Cols, len(op.Cols)) + sepc(len(op.Cols)) + 1 + ntokL(op.GroupBy, len(op.GroupBy)) + len(op.GroupBy), ite(len(op.Cols) >= 1, 1, 0) + slackL(op.Cols, len(op.Cols)) + slackL(op.GroupBy, len(op.GroupBy)))
 //@   invariant pOK(p.pos, len(p.tokens)) && old(cur(p.pos, len(p.tokens))) <= cur(p.pos, len(p.tokens))
-//@   invariant sumColsWF(p.source, op.Cols, len(op.Cols)) && spanSafeList(op.Cols, len(op.Cols))
-//@   invariant sumColsWF(p.source, op.GroupBy, len(op.GroupBy)) && spanSafeList(op.GroupBy, len(op.GroupBy))
+//@   invariant sumColsWF(p.source, op.Cols, len(op.Cols)) && nodeOKList(op.Cols, len(op.Cols))
+//@   invariant sumColsWF(p.source, op.GroupBy, len(op.GroupBy)) && nodeOKList(op.GroupBy, len(op.GroupBy))
 //@   decreases len(p.tokens) + 1 - p.pos
 
 //@ func parser.(*parser).asOperator
-//@   use perr exprwf pwf
+//@   use perr exprwf exprok pwf yield
 //@   hide expr
 //@   requires p != nil && pOK(p.pos, len(p.tokens)) && toksIn(p.source, p.tokens) && tokIn(p.source, pipe) && tokIn(p.source, keyword)
 //@   ensures pOK(p.pos, len(p.tokens)) && old(cur(p.pos, len(p.tokens))) <= cur(p.pos, len(p.tokens))
 //@   ensures @notfound: !nf(result1)
-//@   ensures @wf: result1 == nil ==> pipeOpWF(p.source, result0) && spanSafe(result0)
+//@   ensures @wf: result1 == nil ==> pipeOpWF(p.source, result0) && nodeOK(result0)
+//@   ensures @count: result1 == nil ==> within(cur(p.pos, len(p.tokens)) - old(cur(p.pos, len(p.tokens))) + 2, ntok(result0), slack(result0))
 //@   assigns p.pos
 
 //@ func parser.(*parser).renderProperty
-//@   use perr exprwf pwf
+//@   use perr exprwf exprok pwf yield
 //@   hide expr
 //@   requires p != nil && pOK(p.pos, len(p.tokens)) && toksIn(p.source, p.tokens)
 //@   ensures pOK(p.pos, len(p.tokens)) && old(cur(p.pos, len(p.tokens))) <= cur(p.pos, len(p.tokens))
-//@   ensures @wf: result1 == nil ==> typeis(result0, "RenderProperty") && typeis(result0.Name, "Ident") && exprOK(p.source, result0.Value) && spanSafe(result0) && old(cur(p.pos, len(p.tokens))) < cur(p.pos, len(p.tokens))
+//@   ensures @wf: result1 == nil ==> typeis(result0, "RenderProperty") && typeis(result0.Name, "Ident") && exprOK(p.source, result0.Value) && nodeOK(result0) && old(cur(p.pos, len(p.tokens))) < cur(p.pos, len(p.tokens))
+//@   ensures @count: result1 == nil ==> within(cur(p.pos, len(p.tokens)) - old(cur(p.pos, len(p.tokens))), ntok(result0), slack(result0))
 //@   assigns p.pos
 
 //@ func parser.(*parser).renderOperator
-//@   use perr exprwf pwf
+//@   use perr exprwf exprok pwf yield
 //@   hide expr
 //@   requires p != nil && pOK(p.pos, len(p.tokens)) && toksIn(p.source, p.tokens) && tokIn(p.source, pipe) && tokIn(p.source, keyword)
 //@   ensures pOK(p.pos, len(p.tokens)) && old(cur(p.pos, len(p.tokens))) <= cur(p.pos, len(p.tokens))
 //@   ensures @notfound: !nf(result1)
-//@   ensures @wf: result1 == nil ==> pipeOpWF(p.source, result0) && spanSafe(result0)
+//@   ensures @wf: result1 == nil ==> pipeOpWF(p.source, result0) && nodeOK(result0)
+//@   ensures @count: result1 == nil ==> within(cur(p.pos, len(p.tokens)) - old(cur(p.pos, len(p.tokens))) + 2, ntok(result0), slack(result0))
 //@   assigns p.pos
 //@ loop 1
+//@   invariant spanValid(op.With) && within(cur(p.pos, len(p.tokens)) - old(cur(p.pos, len(p.tokens))), 3 + ntokL(op.Props, len(op.Props)) + len(op.Props), slackL(op.Props, len(op.Props)))
 //@   invariant pOK(p.pos, len(p.tokens)) && old(cur(p.pos, len(p.tokens))) <= cur(p.pos, len(p.tokens))
-//@   invariant typeis(op.ChartType, "Ident") && propsWF(op.Props, len(op.Props)) && spanSafeList(op.Props, len(op.Props))
+//@   invariant typeis(op.ChartType, "Ident") && propsWF(op.Props, len(op.Props)) && nodeOKList(op.Props, len(op.Props))
 //@   decreases len(p.tokens) + 1 - p.pos
 
 //@ func parser.(*parser).projectOperator
-//@   use perr exprwf pwf
+//@   use perr exprwf exprok pwf yield
 //@   hide expr
 //@   trusted mutates a column after appending it to op.Cols (col.Assign, col.X): a store to an embedded node is outside the verified subset
 //@   requires p != nil && pOK(p.pos, len(p.tokens)) && toksIn(p.source, p.tokens) && tokIn(p.source, pipe) && tokIn(p.source, keyword)
 //@   ensures pOK(p.pos, len(p.tokens)) && old(cur(p.pos, len(p.tokens))) <= cur(p.pos, len(p.tokens))
 //@   ensures @notfound: !nf(result1)
-//@   ensures @wf: result1 == nil ==> pipeOpWF(p.source, result0) && spanSafe(result0)
+//@   ensures @wf: result1 == nil ==> pipeOpWF(p.source, result0) && nodeOK(result0)
+//@   ensures @count: result1 == nil ==> within(cur(p.pos, len(p.tokens)) - old(cur(p.pos, len(p.tokens))) + 2, ntok(result0), slack(result0))
 //@   assigns p.pos
 
 //@ func parser.(*parser).joinOperator
-//@   use perr exprwf pwf
+//@   use perr exprwf exprok pwf yield
 //@   hide expr
 //@   requires p != nil && pOK(p.pos, len(p.tokens)) && toksIn(p.source, p.tokens) && tokIn(p.source, pipe) && tokIn(p.source, keyword)
 //@   ensures pOK(p.pos, len(p.tokens)) && old(cur(p.pos, len(p.tokens))) <= cur(p.pos, len(p.tokens))
 //@   ensures @notfound: !nf(result1)
-//@   ensures @wf: result1 == nil ==> pipeOpWF(p.source, result0) && spanSafe(result0)
+//@   ensures @wf: result1 == nil ==> pipeOpWF(p.source, result0) && nodeOK(result0)
+//@   ensures @count: result1 == nil ==> within(cur(p.pos, len(p.tokens)) - old(cur(p.pos, len(p.tokens))) + 2, ntok(result0), slack(result0))
 //@   assigns p.pos
 //@   decreases remTok(p.pos, len(p.tokens)), 8
 
 //@ func parser.(*parser).tabularExpr
-//@   use perr exprwf pwf
+//@   use perr exprwf exprok pwf yield
 //@   hide expr
 //@   requires p != nil && pOK(p.pos, len(p.tokens)) && toksIn(p.source, p.tokens)
 //@   ensures pOK(p.pos, len(p.tokens)) && old(cur(p.pos, len(p.tokens))) <= cur(p.pos, len(p.tokens))
 //@   ensures @notfound: nf(result1) ==> cur(p.pos, len(p.tokens)) == old(cur(p.pos, len(p.tokens))) && result0 == nil
-//@   ensures @wf: result1 == nil ==> tabWF(p.source, result0) && spanSafe(result0)
+//@   ensures @wf: result1 == nil ==> tabWF(p.source, result0) && nodeOK(result0)
+//@   ensures @count: result1 == nil ==> within(cur(p.pos, len(p.tokens)) - old(cur(p.pos, len(p.tokens))), ntok(result0), slack(result0))
 //@   assigns p.pos
 //@   decreases remTok(p.pos, len(p.tokens)), 9
 //@ loop 1
+//@   invariant finalError == nil ==> within(cur(p.pos, len(p.tokens)) - old(cur(p.pos, len(p.tokens))), 1 + ntokL(expr.Operators, len(expr.Operators)), slackL(expr.Operators, len(expr.Operators)))
 //@   invariant pOK(p.pos, len(p.tokens)) && old(cur(p.pos, len(p.tokens))) < cur(p.pos, len(p.tokens)) && !nf(finalError)
-//@   invariant typeis(expr, "TabularExpr") && srcWF(expr.Source) && spanSafe(expr.Source)
-//@   invariant finalError == nil ==> opsWFL(p.source, expr.Operators, len(expr.Operators)) && spanSafeList(expr.Operators, len(expr.Operators))
+//@   invariant typeis(expr, "TabularExpr") && srcWF(expr.Source) && nodeOK(expr.Source)
+//@   invariant finalError == nil ==> opsWFL(p.source, expr.Operators, len(expr.Operators)) && nodeOKList(expr.Operators, len(expr.Operators))
 //@   decreases len(p.tokens) + 1 - p.pos
 
 //@ func parser.(*parser).letStatement
-//@   use perr exprwf pwf
+//@   use perr exprwf exprok pwf yield
 //@   hide expr
 //@   requires p != nil && pOK(p.pos, len(p.tokens)) && toksIn(p.source, p.tokens)
 //@   ensures pOK(p.pos, len(p.tokens)) && old(cur(p.pos, len(p.tokens))) <= cur(p.pos, len(p.tokens))
 //@   ensures @notfound: nf(result1) ==> cur(p.pos, len(p.tokens)) == old(cur(p.pos, len(p.tokens))) && result0 == nil
-//@   ensures @wf: result1 == nil ==> typeis(result0, "LetStatement") && typeis(result0.Name, "Ident") && exprOK(p.source, result0.X)
+//@   ensures @wf: result1 == nil ==> typeis(result0, "LetStatement") && typeis(result0.Name, "Ident") && exprOK(p.source, result0.X) && shapeOK(result0)
+//@   ensures @count: result1 == nil ==> within(cur(p.pos, len(p.tokens)) - old(cur(p.pos, len(p.tokens))), ntok(result0), slack(result0))
 //@   assigns p.pos
 
 // ---------------------------------------------------------------- parser.go: Parse
@@ -726,12 +768,16 @@ package parser
 //@   inline
 
 //@ func parser.Parse
-//@   use perr exprwf pwf
+//@   use perr exprwf exprok pwf yield
 //@   hide expr lex
 //@   ensures @wf: result1 == nil ==> stmtsWF(query, result0, len(result0))
+//@   ensures @shape: result1 == nil ==> shapeOKList(result0, len(result0))
+//@   ensures @count: result1 == nil ==> within(len(scanOf(query)), ntokL(result0, len(result0)) + nsemiT(scanOf(query), len(scanOf(query))), slackL(result0, len(result0)))
 //@ loop 1
 //@   invariant p != nil && p.source == query && toksIn(query, p.tokens) && pOK(p.pos, len(p.tokens)) && p.pos <= len(p.tokens)
-//@   invariant resultError == nil ==> stmtsWF(query, result, len(result))
+//@   invariant resultError == nil ==> stmtsWF(query, result, len(result)) && shapeOKList(result, len(result))
+//@   invariant p.tokens == scanOf(query)
+//@   invariant resultError == nil ==> within(p.pos, ntokL(result, len(result)) + nsemiT(p.tokens, p.pos), slackL(result, len(result)))
 //@   invariant forall(r, 0, old(alloc()), fieldheap("parser", "pos")[r] == old(fieldheap("parser", "pos"))[r])
 //@   invariant forall(r, 0, old(alloc()), fieldheap("parser", "source")[r] == old(fieldheap("parser", "source"))[r])
 //@   invariant forall(r, 0, old(alloc()), fieldheap("parser", "tokens")[r] == old(fieldheap("parser", "tokens"))[r])
